@@ -31,14 +31,15 @@ def check_cfg(ctx, fx, cfg):
     # R13.6 the stream the loop polls is the user's stream itself: every caller of the stream-loop constructor hands over
     # its own parameter unmodified (a wrapping adapter sits between the items and the loop and can stall or drop them)
     found = loops.find_loops(fx)
-    makers = graph.forwarding_closure(fx, {f["parent"]: 2 for f, k in found if k == "stream"}, roots, lambda g_: ctx.body(fx, g_))
+    makers = graph.forwarding_closure(fx, loops.maker_params(fx, "stream", {"stream"}), roots, lambda g_: ctx.body(fx, g_))
     n_sites = 0
     for g, bi, t in graph.all_calls(fx, lambda t: t.get("callee") in makers):
         gb = ctx.body(fx, g)
         n_sites += 1
-        ai = makers[t["callee"]]
-        sty = t["argtys"][ai] if len(t["argtys"]) > ai else ""
-        rs = roots(gb, t["args"][ai]) if len(t["args"]) > ai else set()
+        ai, aproj = makers[t["callee"]]
+        sty = t["argtys"][ai] if (len(t["argtys"]) > ai and not aproj) else ("S" if aproj else "")
+        mop = graph.maker_operand(t, makers)
+        rs = roots(gb, mop) if mop is not None else set()
         ok = bool(rs) and all(r.kind == "arg" for r in rs) and sty in ("S", "T")
         ctx.require(ok, "R13.6", "stream-handed-over-unwrapped:%s@%s" % (g["def"], cfg), "the stream given to the loop is not the caller's own stream parameter (type %s, roots %s)" % (sty[:60], sorted(map(str, rs))), fn=g["def"], site=t["l"])
     # counted: Environment::launch_on_stream + the two builder / spawner terminals; the latter are gated on a runtime feature
@@ -70,7 +71,7 @@ def check_cfg(ctx, fx, cfg):
         up = f.get("upvars", [])
         # R13.5
         s_idx = [i for i, u in enumerate(up) if u == "S"]
-        m_idx = [i for i, u in enumerate(up) if "poll_fn::PollFn<" in u and loops.PAYLOAD in u]
+        m_idx = loops.mailbox_rx_captures(fx, f)
         ctx.require(len(s_idx) == 1 and len(m_idx) == 1, "R13.5", inst + ":owns-stream-and-mailbox", "the loop future must own the stream and the mailbox: captures %s" % [u[:40] for u in up], fn=f["def"], site=f["loc"])
         nexts = [(bi, t) for bi, t in b.normal_calls() if (t.get("callee") or "").endswith("StreamExt::next")]
         got = set()
